@@ -232,7 +232,14 @@ def r5_loop_exits(ctx):
     read_body_loop_exits(ctx.F, ctx.R, "C19.R5", ctx.tracer(follow_callers=False, follow_fields=False))
 
 
-RULES = [r1_gate, r2_chunk_independence, r3_is_json, r4_content_length_use, r5_loop_exits, r6_proxy_rewrites_only_what_it_proxies, r7_gate_is_the_only_gate]
+
+def rstatus_http_status_table(ctx):
+    """the HTTP refusals relevant here carry their own status codes"""
+    from .common import http_status_table
+    http_status_table(ctx, "C19.STATUS", ('method_not_allowed', 'unsupported_content_type', 'from_method_response'))
+
+
+RULES = [r1_gate, r2_chunk_independence, r3_is_json, r4_content_length_use, r5_loop_exits, r6_proxy_rewrites_only_what_it_proxies, r7_gate_is_the_only_gate, rstatus_http_status_table]
 
 LEVEL_TEXT = (
     "Structural necessary conditions decided from the type-checked program: the method/content-type gate by dominance on "
